@@ -11,6 +11,8 @@ import (
 	"strings"
 	"time"
 
+	wt "github.com/hnakamur/whispertool"
+
 	"verifharness/fw"
 	"verifharness/model"
 )
@@ -22,7 +24,7 @@ type c16 struct{}
 func init() { fw.Register(c16{}) }
 
 var c16Cmds = []string{"view", "view-raw", "diff", "copy", "sum", "sum-copy", "sum-diff", "generate"}
-var c16Faults = []string{"none", "none", "textout-missing-dir", "textout-is-dir", "textout-unwritable", "textout-dev-full", "source-missing", "source-garbage", "source-truncated", "dest-readonly-dir", "dest-parent-is-file", "layout-mismatch", "dest-missing", "empty-sources-dest-absent", "dest-write-fails"}
+var c16Faults = []string{"none", "none", "textout-missing-dir", "textout-is-dir", "textout-unwritable", "textout-dev-full", "source-missing", "source-garbage", "source-truncated", "dest-readonly-dir", "dest-parent-is-file", "layout-mismatch", "dest-missing", "empty-sources-dest-absent", "dest-write-fails", "remote-no-match", "item-matches-non-directories", "many-slow-sources"}
 var c16Archs = []string{"all", "first", "last", "n", "-2"}
 var c16Windows = []string{"default", "past-inside", "future", "older-than-finest", "older-than-all", "degenerate"}
 var c16TextOuts = []string{"file", "", "-"}
@@ -31,7 +33,7 @@ func (c16) Meta() fw.Meta {
 	return fw.Meta{
 		ID: "C16",
 		Rule: "case = one invocation of the real binary from the product subcommand {view, view-raw, diff, copy, sum, sum-copy, sum-diff, generate} x archive selection {all, first, last, n (out of range), -2} x window {default, past inside, future, older than the finest retention, older than all, degenerate} " +
-			"x fault {none, -text-out in a non-existent directory / is a directory / unwritable (child runs as uid 65534) / on a full device, source missing / garbage / truncated, destination directory read-only for the child's uid / parent is a regular file, layout mismatch, destination missing, never-written sources with an absent destination, every page write to the destination failing with ENOSPC (strace injection into pwritev)} x -text-out {file, empty, stdout}. " +
+			"x fault {none, -text-out in a non-existent directory / is a directory / unwritable (child runs as uid 65534) / on a full device, source missing / garbage / truncated, destination directory read-only for the child's uid / parent is a regular file, layout mismatch, destination missing, never-written sources with an absent destination, every page write to the destination failing with ENOSPC (strace injection into pwritev), a server URL as source with a pattern matching nothing, an item pattern matching only a regular file and a dangling symlink, an item of 70-110 sources all locked for 400 ms (no fault)} x -text-out {file, empty, stdout}. " +
 			"quick covers every (subcommand, fault) and (subcommand, archive selection) pair with windows and text-out modes cycling; thorough enumerates the whole product. " +
 			"oracle: output never contains a Go panic/fatal error and the process is not killed by a signal; exit 0 (or 1 for diff/sum-diff) => the work is observable: the -text-out file exists and holds the command's output (header, now: lines, the number of point lines the library computes for that window), copy/sum-copy destinations satisfy the C08/C11 effect oracle, generate's file exists with the requested header; " +
 			"an unopenable or unflushable -text-out, a missing/garbage/truncated input, an out-of-range archive id, an uncreatable destination or a layout mismatch => exit != 0 (the exact verdict for a missing side of diff is C09's business). " +
@@ -40,7 +42,7 @@ func (c16) Meta() fw.Meta {
 			"the harness runs as root and drops the child to uid 65534 for the permission faults; scratch directories are made world-traversable for those cases",
 			"point-line counts are only compared when the second did not change across the process",
 		},
-		Obligations: []string{"invocations", "success_effect_checked", "fault_reported", "textout_file_checked", "absent_series_invocations", "out_of_range_archive_reported", "diff_missing_side_exit1", "uid_dropped_runs", "two_item_fault_runs", "created_with_nothing_to_copy_runs", "destination_write_failures_injected"},
+		Obligations: []string{"invocations", "success_effect_checked", "fault_reported", "textout_file_checked", "absent_series_invocations", "out_of_range_archive_reported", "diff_missing_side_exit1", "uid_dropped_runs", "two_item_fault_runs", "created_with_nothing_to_copy_runs", "destination_write_failures_injected", "remote_no_match_runs", "item_matches_non_directories_runs", "many_slow_sources_runs"},
 		Workers:     12,
 		Level:       "fault_enumeration",
 	}
@@ -270,6 +272,62 @@ func (c16) Run(c *fw.Ctx) {
 			os.Remove(destFile)
 			os.Remove(sumDest)
 			c.Count("created_with_nothing_to_copy_runs", 1)
+		}
+	case "remote-no-match":
+		// the source base is a server and the pattern matches nothing there: an input is missing
+		if hasSource {
+			if u, _, ok := workerServer(c); ok {
+				for i := range args {
+					switch args[i] {
+					case "-src-base":
+						args[i+1] = u
+					case "-src":
+						if cmdName == "view" || cmdName == "view-raw" || cmdName == "diff" || cmdName == "copy" {
+							args[i+1] = "zz-no-such-*/nothing*.wsp"
+						}
+					case "-item":
+						args[i+1] = "zz-no-such-item*"
+					}
+				}
+				expectFail = "remote source pattern matches nothing"
+				c.Count("remote_no_match_runs", 1)
+			}
+		}
+	case "item-matches-non-directories":
+		// the item pattern matches names, but only a regular file and a dangling symlink: no input can be read
+		if cmdName == "sum" || cmdName == "sum-copy" || cmdName == "sum-diff" {
+			ioutil.WriteFile(filepath.Join(srcBase, "stray1"), []byte("not a directory"), 0644)
+			os.Symlink(filepath.Join(srcBase, "gone"), filepath.Join(srcBase, "stray2"))
+			for i := range args {
+				if args[i] == "-item" {
+					args[i+1] = "stray*"
+				}
+			}
+			expectFail = "item pattern matches only non-directories"
+			c.Count("item_matches_non_directories_runs", 1)
+		}
+	case "many-slow-sources":
+		// not a fault: an item with many source files, every one of them locked by another process for a moment when
+		// the command starts (all readers are in flight at once)
+		if cmdName == "sum" || cmdName == "sum-copy" || cmdName == "sum-diff" {
+			var holds []*wt.Whisper
+			for k := 0; k < 70+r.Intn(40); k++ {
+				n := fmt.Sprintf("c%03d.wsp", k)
+				writeFixture(filepath.Join(srcBase, item, n), l, genContent(r, l, now, 0.3), now)
+				tree.Items[item] = append(tree.Items[item], n)
+			}
+			for _, n := range tree.Items[item] {
+				if h, err := wt.Open(filepath.Join(srcBase, item, n)); err == nil {
+					holds = append(holds, h)
+				}
+			}
+			go func() {
+				time.Sleep(400 * time.Millisecond)
+				for _, h := range holds {
+					h.Close()
+				}
+			}()
+			c.Count("many_slow_sources_runs", 1)
 		}
 	case "dest-write-fails":
 		// every write of page images to the destination fails with ENOSPC (injected into the command's own pwritev
